@@ -50,6 +50,8 @@ func c18Base() *spec.Program {
 	m("EmbY", nil, f("YStr", 1, spec.KString), f("YNum", 2, spec.KInt64))
 	m("Holder", nil, f("HStr", 1, spec.KString), f("EmbY", 2, spec.KMessage, ref("EmbY"), emb, nn))
 	m("RootG", nil, f("GStr", 1, spec.KString), f("GItems", 2, spec.KMessage, ref("Holder"), list), f("GMap", 3, spec.KMessage, ref("Holder"), mp, nn))
+	// a second selected type that reaches the same embedding message (same error text for both)
+	m("RootH", nil, f("HName", 1, spec.KString), f("HRef", 2, spec.KMessage, ref("Holder")))
 	m("RootBExt", nil, f("BxStr", 1, spec.KString), f("BxInner", 2, spec.KMessage, ref("Inner")))
 	m("RootD2", nil, f("D2Str", 1, spec.KString))
 	// a chain of twelve nested messages (singular, list and map links alternate)
@@ -71,7 +73,7 @@ func c18Base() *spec.Program {
 	m("Clean", nil, f("Name", 1, spec.KString), f("Count", 2, spec.KInt64), f("Inner", 3, spec.KMessage, ref("Inner"), nn))
 	m("Unselected", nil, f("UStr", 1, spec.KString))
 	p.Config = spec.Config{
-		Types:          []string{"RootAExt", "RootA", "RootF", "RootB", "RootC", "RootD", "RootE", "RootG", "RootDeep", "RootBExt", "RootD2", "Clean"},
+		Types:          []string{"RootAExt", "RootA", "RootF", "RootB", "RootC", "RootD", "RootE", "RootG", "RootH", "RootDeep", "RootBExt", "RootD2", "Clean"},
 		ComputedFields: []string{"Clean.Count"},
 		// configured although duration_type is not: a field cast to it has no mapping
 		DurationCustomType: spec.DurationCastName,
